@@ -257,6 +257,12 @@ func fieldName(t types.Type, i int) string {
 func (a *Act) unop(st *State, x *ssa.UnOp) {
 	switch x.Op {
 	case token.MUL:
+		if g, ok := x.X.(*ssa.Global); ok {
+			if t, ok := a.constGlobal(st, g); ok {
+				a.set(x, t)
+				return
+			}
+		}
 		p := a.val(x.X)
 		v := a.loadPtr(st, p, x.Pos(), "load")
 		a.set(x, v)
@@ -551,4 +557,62 @@ func (a *Act) next(st *State, x *ssa.Next) {
 	a.u.Fact(eq(ns, ite(ok, store(seen, k, "true"), seen)))
 	st.seen[rng] = ns
 	a.vals[x] = Val{Tuple: []Val{{T: ok, Typ: types.Typ[types.Bool]}, {T: k, Typ: mt.Key()}, {T: v, Typ: mt.Elem()}}, Typ: x.Type()}
+}
+
+// constGlobal: a package-level variable that is assigned exactly once, in its package initialiser, from
+// constants (possibly through modelled library calls such as decimal.NewFromInt) is a constant.
+func (a *Act) constGlobal(st *State, g *ssa.Global) (Term, bool) {
+	if g.Pkg != nil && g.Pkg.Pkg.Path() == "github.com/shopspring/decimal" && g.Name() == "Zero" {
+		return "0.0", true
+	}
+	stores := a.u.E.GlobalStores(g)
+	if len(stores) != 1 || stores[0].Parent().Name() != "init" {
+		return "", false
+	}
+	sub := &Act{u: a.u, fn: stores[0].Parent(), vals: map[ssa.Value]Val{}, top: a.top, entry: a.entry, spec: true, pureFns: map[ssa.Value]bool{}}
+	var eval func(v ssa.Value, depth int) bool
+	eval = func(v ssa.Value, depth int) bool {
+		if depth > 6 {
+			return false
+		}
+		switch x := v.(type) {
+		case *ssa.Const:
+			return true
+		case *ssa.Call:
+			callee, ok := x.Call.Value.(*ssa.Function)
+			if !ok {
+				return false
+			}
+			if _, isIntr := intrinsics[intrinsicKey(callee)]; !isIntr {
+				return false
+			}
+			for _, arg := range x.Call.Args {
+				if !eval(arg, depth+1) {
+					return false
+				}
+			}
+		case *ssa.Convert:
+			if !eval(x.X, depth+1) {
+				return false
+			}
+		default:
+			return false
+		}
+		if ins, ok := v.(ssa.Instruction); ok {
+			tmp := st.clone()
+			if err := catch(func() { sub.instr(tmp, ins) }); err != nil {
+				return false
+			}
+		}
+		return true
+	}
+	if !eval(stores[0].Val, 0) {
+		return "", false
+	}
+	var t Term
+	if err := catch(func() { t = sub.val(stores[0].Val).T }); err != nil || t == "" {
+		return "", false
+	}
+	a.u.Trusted["constant global "+g.Pkg.Pkg.Name()+"."+g.Name()+" (assigned once, in the package initialiser)"] = true
+	return t, true
 }
